@@ -567,3 +567,462 @@ Theorem op_rpcs_are_its_trace le t o sc :
   not_abort (snd (step le t o sc)) ->
   rev (rpc_log (fst (step le t o sc))) = rpcs_of_micro (op_micro le t o sc).
 Proof. intros H. rewrite (proj2 (step_traced le t o sc H)). apply rev_involutive. Qed.
+
+(* ------------------------------------------------------------------------------------------ *)
+(* 10. crash at any micro step: integrity, and the invariant after restart *)
+
+Lemma db_of_recover shell d : db_of (recover shell d) = d.
+Proof. destruct d. reflexivity. Qed.
+
+Lemma db_of_restart t d : db_of (restart t d) = d.
+Proof. apply db_of_recover. Qed.
+
+Theorem crash_integrity le k t o sc :
+  Inv t -> DbInv (crash_at le k t o sc) /\ Inv (restart t (crash_at le k t o sc)).
+Proof.
+  intros HI. assert (HD : DbInv (crash_at le k t o sc)).
+  { unfold crash_at. apply execs_inv. apply dbinv_of_inv. exact HI. }
+  split; [exact HD|]. unfold restart. apply recover_inv. exact HD.
+Qed.
+
+(* the crash prefix with every step done is the completed operation *)
+Lemma firstn_all_ge {A} (l : list A) k : (length l <= k)%nat -> firstn k l = l.
+Proof. intros H. apply firstn_all2. exact H. Qed.
+
+Theorem crash_after_last_step le t o sc k :
+  not_abort (snd (step le t o sc)) -> (length (op_micro le t o sc) <= k)%nat ->
+  crash_at le k t o sc = db_of (fst (step le t o sc)).
+Proof.
+  intros Hn Hk. unfold crash_at. rewrite firstn_all_ge by exact Hk. symmetry. apply op_is_its_trace. exact Hn.
+Qed.
+
+(* ------------------------------------------------------------------------------------------ *)
+(* 11. durable rows disappear only through a statement that deletes them *)
+
+Lemma has_app_iff d uuid : has_app d uuid = true <-> In uuid (map app_uuid (d_apps d)).
+Proof.
+  unfold has_app. rewrite existsb_exists. split.
+  - intros [a [Ha He]]. apply uuid_eqb_eq in He. subst. apply in_map. exact Ha.
+  - intros H. apply in_map_iff in H. destruct H as [a [He Ha]]. exists a. split; [exact Ha|]. rewrite He. apply uuid_eqb_refl.
+Qed.
+
+Lemma has_trk_iff d uuid : has_trk d uuid = true <-> In uuid (map trk_uuid (d_trks d)).
+Proof.
+  unfold has_trk. rewrite existsb_exists. split.
+  - intros [a [Ha He]]. apply uuid_eqb_eq in He. subst. apply in_map. exact Ha.
+  - intros H. apply in_map_iff in H. destruct H as [a [He Ha]]. exists a. split; [exact Ha|]. rewrite He. apply uuid_eqb_refl.
+Qed.
+
+Lemma map_uuid_repl a l :
+  map app_uuid (map (fun x => if uuid_eqb (app_uuid x) (app_uuid a) then a else x) l) = map app_uuid l.
+Proof.
+  rewrite map_map. apply map_ext. intros x. destruct (uuid_eqb (app_uuid x) (app_uuid a)) eqn:E; [|reflexivity].
+  apply uuid_eqb_eq in E. congruence.
+Qed.
+
+Lemma map_uuid_trk_status uuid h c l :
+  map trk_uuid (map (fun k => if uuid_eqb (trk_uuid k) uuid then mk_trk (t_loc k) (t_user k) (t_dispute k) (t_penalty k) h c else k) l)
+  = map trk_uuid l.
+Proof. rewrite map_map. apply map_ext. intros k. destruct (uuid_eqb (trk_uuid k) uuid); reflexivity. Qed.
+
+Lemma exec_fuel_keeps fuel : forall s d uuid,
+  (In uuid (map app_uuid (d_apps d)) ->
+   In uuid (map app_uuid (d_apps (exec_fuel fuel d s))) \/ deletes_fuel fuel uuid s = true) /\
+  (In uuid (map trk_uuid (d_trks d)) ->
+   In uuid (map trk_uuid (d_trks (exec_fuel fuel d s))) \/ deletes_fuel fuel uuid s = true).
+Proof.
+  induction fuel as [|f IHf]; intros s d uuid;
+  (destruct s as [u ui|u ui|u s|us|a|a|us|k|uu h c|l]; cbn [exec_fuel deletes_fuel];
+   [ destruct (amem (d_users d) u); cbn; tauto
+   | cbn; tauto
+   | cbn; tauto
+   | cbn [d_apps d_trks]; split; intros H; apply in_map_iff in H; destruct H as [x [He Hx]];
+     (destruct (memN (snd uuid) us) eqn:Em; [right; reflexivity|left]; apply in_map_iff; exists x; split; [exact He|];
+      apply filter_In; split; [exact Hx|]; subst uuid; cbn [snd app_uuid trk_uuid] in Em; rewrite Em; reflexivity)
+   | destruct (find_app (d_apps d) (app_uuid a)); [tauto|]; destruct (amem (d_users d) (a_user a)); [|tauto];
+     cbn [d_apps d_trks]; rewrite map_app, in_app_iff; tauto
+   | cbn [d_apps d_trks]; rewrite map_uuid_repl; tauto
+   | cbn [d_apps d_trks]; split; intros H; apply in_map_iff in H; destruct H as [x [He Hx]];
+     (destruct (mem_uuid uuid us) eqn:Em; [right; reflexivity|left]; apply in_map_iff; exists x; split; [exact He|];
+      apply filter_In; split; [exact Hx|]; rewrite He, Em; reflexivity)
+   | destruct (find_trk (d_trks d) (trk_uuid k)); [tauto|]; destruct (find_app (d_apps d) (trk_uuid k)); [|tauto];
+     cbn [d_apps d_trks]; rewrite map_app, in_app_iff; tauto
+   | cbn [d_apps d_trks]; rewrite map_uuid_trk_status; tauto
+   | idtac ]).
+  - tauto.
+  - revert d. induction l as [|s l IHl]; intros d; cbn [fold_left existsb]; [tauto|].
+    destruct (IHf s d uuid) as [A1 T1]. destruct (IHl (exec_fuel f d s)) as [A2 T2].
+    split; intros H.
+    + destruct (A1 H) as [H1|H1]; [|right; rewrite H1; reflexivity].
+      destruct (A2 H1) as [H2|H2]; [left; exact H2|right; rewrite H2; apply orb_true_r].
+    + destruct (T1 H) as [H1|H1]; [|right; rewrite H1; reflexivity].
+      destruct (T2 H1) as [H2|H2]; [left; exact H2|right; rewrite H2; apply orb_true_r].
+Qed.
+
+(* for EVERY statement sequence: an appointment row (a tracker row) present before and absent after
+   implies that a DELETE naming it, or a DELETE of its owner (cascade), was executed *)
+Theorem rows_only_deleted_explicitly l : forall d uuid,
+  (has_app d uuid = true -> has_app (execs d l) uuid = true \/ exists s, In s l /\ deletes uuid s = true) /\
+  (has_trk d uuid = true -> has_trk (execs d l) uuid = true \/ exists s, In s l /\ deletes uuid s = true).
+Proof.
+  induction l as [|s l IH]; intros d uuid; cbn [execs fold_left]; [tauto|].
+  change (fold_left exec l (exec d s)) with (execs (exec d s) l).
+  destruct (exec_fuel_keeps 2 s d uuid) as [A1 T1]. destruct (IH (exec d s) uuid) as [A2 T2].
+  rewrite !has_app_iff, !has_trk_iff in *. split; intros H.
+  - destruct (A1 H) as [H1|H1]; [|right; exists s; split; [left; reflexivity|exact H1]].
+    destruct (A2 H1) as [H2|[s' [Hs' Hd]]]; [left; exact H2|right; exists s'; split; [right; exact Hs'|exact Hd]].
+  - destruct (T1 H) as [H1|H1]; [|right; exists s; split; [left; reflexivity|exact H1]].
+    destruct (T2 H1) as [H2|[s' [Hs' Hd]]]; [left; exact H2|right; exists s'; split; [right; exact Hs'|exact Hd]].
+Qed.
+
+(* the CONTENT of an appointment row changes only through an UPDATE naming it (its owner replaces it) *)
+Lemma exec_fuel_keeps_row fuel : forall s d a,
+  In a (d_apps d) ->
+  In a (d_apps (exec_fuel fuel d s)) \/ deletes_fuel fuel (app_uuid a) s = true \/ replaces_fuel fuel (app_uuid a) s = true.
+Proof.
+  induction fuel as [|f IHf]; intros s d a0 H;
+  (destruct s as [u ui|u ui|u s|us|a|a|us|k|uu h c|l]; cbn [exec_fuel deletes_fuel replaces_fuel];
+   [ destruct (amem (d_users d) u); cbn; tauto
+   | cbn; tauto
+   | cbn; tauto
+   | cbn [d_apps]; destruct (memN (snd (app_uuid a0)) us) eqn:Em; [tauto|left];
+     apply filter_In; split; [exact H|]; cbn [snd app_uuid] in Em; rewrite Em; reflexivity
+   | destruct (find_app (d_apps d) (app_uuid a)); [tauto|]; destruct (amem (d_users d) (a_user a)); [|tauto];
+     cbn [d_apps]; rewrite in_app_iff; tauto
+   | cbn [d_apps]; destruct (uuid_eqb (app_uuid a) (app_uuid a0)) eqn:E; [tauto|left];
+     apply in_map_iff; exists a0; split; [|exact H];
+     destruct (uuid_eqb (app_uuid a0) (app_uuid a)) eqn:E2; [|reflexivity];
+     apply uuid_eqb_eq in E2; rewrite E2, uuid_eqb_refl in E; discriminate
+   | cbn [d_apps]; destruct (mem_uuid (app_uuid a0) us) eqn:Em; [tauto|left];
+     apply filter_In; split; [exact H|]; rewrite Em; reflexivity
+   | destruct (find_trk (d_trks d) (trk_uuid k)); [tauto|]; destruct (find_app (d_apps d) (trk_uuid k)); cbn; tauto
+   | cbn; tauto
+   | idtac ]).
+  - tauto.
+  - revert d H. induction l as [|s l IHl]; intros d H; cbn [fold_left existsb]; [tauto|].
+    destruct (IHf s d a0 H) as [H1|[H1|H1]]; [|right; left; rewrite H1; reflexivity|right; right; rewrite H1; reflexivity].
+    destruct (IHl _ H1) as [H2|[H2|H2]]; [left; exact H2|right; left; rewrite H2; apply orb_true_r|right; right; rewrite H2; apply orb_true_r].
+Qed.
+
+Theorem row_content_kept l : forall d a,
+  In a (d_apps d) ->
+  In a (d_apps (execs d l)) \/ exists s, In s l /\ (deletes (app_uuid a) s = true \/ replaces (app_uuid a) s = true).
+Proof.
+  induction l as [|s l IH]; intros d a H; cbn [execs fold_left]; [tauto|].
+  change (fold_left exec l (exec d s)) with (execs (exec d s) l).
+  destruct (exec_fuel_keeps_row 2 s d a H) as [H1|H1]; [|right; exists s; split; [left; reflexivity|exact H1]].
+  destruct (IH _ _ H1) as [H2|[s' [Hs' Hd]]]; [left; exact H2|right; exists s'; split; [right; exact Hs'|exact Hd]].
+Qed.
+
+(* ------------------------------------------------------------------------------------------ *)
+(* 12. the receipt is returned after everything is durable: MAck is the last micro step *)
+
+Definition noack (l : list micro) : Prop := Forall (fun m => m <> MAck) l.
+
+Lemma noack_nil : noack [].
+Proof. constructor. Qed.
+Lemma noack_app l1 l2 : noack l1 -> noack l2 -> noack (l1 ++ l2).
+Proof. unfold noack. intros. apply Forall_app. split; assumption. Qed.
+Lemma noack_stmt s : noack [MStmt s].
+Proof. repeat constructor. discriminate. Qed.
+Lemma noack_rpc r : noack [MRpc r].
+Proof. repeat constructor. discriminate. Qed.
+Lemma noack_cons_stmt s l : noack l -> noack (MStmt s :: l).
+Proof. intros H. constructor; [discriminate|exact H]. Qed.
+
+Lemma noack_send sc t tx : noack (tr_send sc t tx).
+Proof. unfold tr_send. destruct (aget (car_memo t) tx); [apply noack_nil|apply noack_rpc]. Qed.
+
+Lemma noack_add_update_user t u : noack (tr_add_update_user t u).
+Proof.
+  unfold tr_add_update_user. destruct (gk_get t u) as [ui|].
+  - destruct (u32_add _ _); [apply noack_stmt|apply noack_nil].
+  - destruct (u32_add _ _); [apply noack_stmt|apply noack_nil].
+Qed.
+
+Lemma noack_charge t u uuid blen : noack (tr_charge t u uuid blen).
+Proof.
+  unfold tr_charge. destruct (gk_get t u); [|apply noack_nil].
+  match goal with |- context [if ?c then _ else _] => destruct c end; [apply noack_stmt|apply noack_nil].
+Qed.
+
+Lemma noack_delete t us r : noack (tr_delete t us r).
+Proof. unfold tr_delete. destruct r; [apply noack_stmt|]. destruct us as [|x [|y l]]; apply noack_stmt. Qed.
+
+Lemma noack_add_tracker uuid d p s : noack (tr_add_tracker uuid d p s).
+Proof. unfold tr_add_tracker. destruct s; first [apply noack_stmt|apply noack_nil]. Qed.
+
+Lemma noack_handle_breach sc t uuid d p : noack (tr_handle_breach sc t uuid d p).
+Proof.
+  unfold tr_handle_breach. destruct (ti_get (r_index t) p) as [bh|].
+  - destruct (ti_get_height _ bh); [apply noack_add_tracker|apply noack_nil].
+  - apply noack_app; [apply noack_rpc|]. destruct (fst (in_mempool sc t p)); [apply noack_add_tracker|].
+    apply noack_app; [apply noack_send|apply noack_add_tracker].
+Qed.
+
+Lemma noack_store_appointment t a : noack (tr_store_appointment t a).
+Proof. unfold tr_store_appointment. destruct (find_app _ _); apply noack_stmt. Qed.
+
+Lemma noack_store_triggered sc t a d : noack (tr_store_triggered sc t a d).
+Proof.
+  unfold tr_store_triggered. destruct (decrypt (a_blob a) d) as [p|].
+  - apply noack_app; [apply noack_store_appointment|]. destruct (w_store_appointment t a) as [[] t1|]; [|apply noack_nil].
+    apply noack_app; [apply noack_handle_breach|]. destruct (r_handle_breach sc t1 (app_uuid a) d p) as [s t2|]; [|apply noack_nil].
+    destruct (status_rejected s); [apply noack_delete|apply noack_nil].
+  - destruct (find_app _ _); [apply noack_delete|apply noack_nil].
+Qed.
+
+Lemma ack_last_add sc t signer loc b delay sig :
+  exists l, noack l /\ (tr_add_appointment sc t signer loc b delay sig = l \/
+                        tr_add_appointment sc t signer loc b delay sig = l ++ [MAck]).
+Proof.
+  unfold tr_add_appointment.
+  destruct (authenticate t signer) as [u|]; [|exists []; split; [apply noack_nil|right; reflexivity]].
+  destruct (gk_get t u) as [ui|]; [|exists []; split; [apply noack_nil|left; reflexivity]].
+  destruct (N.leb (u_expiry ui) (gk_height t)); [exists []; split; [apply noack_nil|right; reflexivity]|].
+  destruct (find_trk (db_trks t) (loc, u)); [exists []; split; [apply noack_nil|right; reflexivity]|].
+  destruct (gk_add_update_appointment t u (loc, u) (b_len b)) as [[av|] t1|s t1].
+  - destruct (ti_get (w_cache t1) loc) as [d|].
+    + destruct (w_store_triggered sc t1 _ d) as [[] t2|s t2].
+      * eexists. split; [|right; rewrite app_assoc; reflexivity]. apply noack_app; [apply noack_charge|apply noack_store_triggered].
+      * eexists. split; [|left; reflexivity]. rewrite app_nil_r. apply noack_app; [apply noack_charge|apply noack_store_triggered].
+    + destruct (w_store_appointment t1 _) as [[] t2|s t2].
+      * eexists. split; [|right; rewrite app_assoc; reflexivity]. apply noack_app; [apply noack_charge|apply noack_store_appointment].
+      * eexists. split; [|left; reflexivity]. rewrite app_nil_r. apply noack_app; [apply noack_charge|apply noack_store_appointment].
+  - eexists. split; [|right; reflexivity]. apply noack_charge.
+  - eexists. split; [|left; reflexivity]. rewrite app_nil_r. apply noack_charge.
+Qed.
+
+Lemma noack_concat gs : Forall noack gs -> noack (concat gs).
+Proof. induction 1; cbn [concat]; [apply noack_nil|apply noack_app; assumption]. Qed.
+
+Lemma noack_breach_uuid_loop sc d : forall us t inv, noack (tr_breach_uuid_loop sc d us t inv).
+Proof.
+  induction us as [|uuid us IH]; intros t inv; cbn [tr_breach_uuid_loop]; [apply noack_nil|].
+  destruct (find_app _ uuid) as [a|]; [|apply noack_nil]. destruct (decrypt _ d) as [p|]; [|apply IH].
+  apply noack_app; [apply noack_handle_breach|]. destruct (r_handle_breach sc t uuid d p); [apply IH|apply noack_nil].
+Qed.
+
+Lemma noack_breach_loop sc : forall ds t inv, Forall noack (tr_breach_loop sc ds t inv).
+Proof.
+  induction ds as [|d ds IH]; intros t inv; cbn [tr_breach_loop]; constructor; [apply noack_breach_uuid_loop|].
+  destruct (breach_uuid_loop _ _ _ _ _); [apply IH|constructor].
+Qed.
+
+Lemma noack_check_conf txids h : forall snap t, noack (tr_check_conf txids h snap t).
+Proof.
+  induction snap as [|k snap IH]; intros t; cbn [tr_check_conf]; [apply noack_nil|].
+  destruct (memN _ _); [|apply IH]. destruct (find_trk _ _); [|apply noack_nil]. apply noack_cons_stmt. apply IH.
+Qed.
+
+Lemma noack_reorged sc h : forall us t, Forall noack (tr_reorged sc h us t).
+Proof.
+  induction us as [|uuid us IH]; intros t; cbn [tr_reorged]; [constructor|].
+  destruct (find_trk _ uuid) as [k|]; [|apply IH].
+  destruct (fst (send_transaction sc t (t_dispute k))).
+  - constructor; [apply noack_send|constructor].
+  - destruct (status_rejected _); constructor; try apply IH;
+      repeat (apply noack_app; try apply noack_send); apply noack_stmt.
+  - destruct (status_rejected _); constructor; try apply IH;
+      repeat (apply noack_app; try apply noack_send); apply noack_stmt.
+  - constructor; [apply noack_send|apply IH].
+Qed.
+
+Lemma noack_stale sc h : forall us t, noack (tr_stale sc h us t).
+Proof.
+  induction us as [|uuid us IH]; intros t; cbn [tr_stale]; [apply noack_nil|].
+  destruct (find_trk _ uuid) as [k|]; [|apply noack_nil]. apply noack_app; [apply noack_send|].
+  destruct (fst (send_transaction sc t (t_penalty k))); try (apply noack_cons_stmt); apply IH.
+Qed.
+
+Lemma noack_delete_opt t us r : noack (match us with [] => [] | _ => tr_delete t us r end).
+Proof. destruct us; [apply noack_nil|apply noack_delete]. Qed.
+Lemma noack_delete_opt' t us r : noack (match us with [] => [] | x :: l => tr_delete t (x :: l) r end).
+Proof. destruct us; [apply noack_nil|apply noack_delete]. Qed.
+
+Lemma noack_r_block le sc t b h : noack (flat_segs (tr_r_block le sc t b h)).
+Proof.
+  unfold tr_r_block. destruct (ti_update _ b) as [idx|]; [|apply noack_nil].
+  rewrite flat_segs_cons. apply noack_app; [apply noack_check_conf|].
+  destruct (check_conf_loop _ _ _ _ _ _) as [completed t2|]; [|apply noack_nil].
+  rewrite flat_segs_cons. apply noack_app; [apply noack_delete_opt|].
+  destruct (match completed with [] => Ok tt t2 | _ => _ end) as [[] t3|]; [|apply noack_nil].
+  rewrite flat_segs_cons. apply noack_app.
+  { cbn [flat_seg]. apply noack_concat. destruct (reorged t3); [constructor|apply noack_reorged]. }
+  destruct (match reorged t3 with [] => Ok [] t3 | _ => _ end) as [rej1 t4|]; [|apply noack_nil].
+  destruct (u32_sub _ _) as [lim|]; [|apply noack_nil].
+  rewrite flat_segs_cons. apply noack_app; [apply noack_stale|].
+  destruct (stale_loop _ _ _ _ _) as [rej2 t5|]; [|apply noack_nil].
+  cbn [flat_segs flat_map flat_seg]. rewrite app_nil_r. apply noack_delete_opt'.
+Qed.
+
+Lemma noack_w_block sc t b h : noack (flat_segs (tr_w_block sc t b h)).
+Proof.
+  unfold tr_w_block. destruct (ti_update _ b) as [c|]; [|apply noack_nil].
+  rewrite flat_segs_cons. apply noack_app; [apply noack_concat; apply noack_breach_loop|].
+  destruct (breach_loop _ _ _ _) as [invalid t2|]; [|apply noack_nil].
+  cbn [flat_segs flat_map flat_seg]. rewrite app_nil_r. apply noack_delete_opt.
+Qed.
+
+Lemma noack_gk_block t h : noack (tr_gk_block t h).
+Proof. unfold tr_gk_block. destruct (outdated_users _ _ _) as [[|o os]|]; first [apply noack_stmt|apply noack_nil]. Qed.
+
+Lemma noack_listeners f le sc hash txs h order : forall t,
+  noack (flat_segs (tr_listeners f (tr_listener_connected le sc hash txs h) order t)).
+Proof.
+  induction order as [|w order IH]; intros t; cbn [tr_listeners]; [apply noack_nil|].
+  rewrite flat_segs_app. apply noack_app.
+  - unfold tr_listener_connected. destruct (Z.eqb w 0).
+    + cbn [flat_segs flat_map flat_seg]. rewrite app_nil_r. apply noack_gk_block.
+    + destruct (Z.eqb w 1); [apply noack_w_block|apply noack_r_block].
+  - destruct (f w t); [apply IH|apply noack_nil].
+Qed.
+
+Lemma ack_last le t o sc :
+  exists l, noack l /\ (op_micro le t o sc = l \/ op_micro le t o sc = l ++ [MAck]).
+Proof.
+  unfold op_micro, op_segs. destruct o as [u|signer loc b delay sig|signer loc|signer|hash txs|].
+  - cbn [flat_segs flat_map flat_seg]. rewrite app_nil_r. exists (tr_add_update_user (set_rpc_log t []) u).
+    split; [apply noack_add_update_user|]. destruct (gk_add_update_user _ u); cbn [ack_if_ok]; [right; reflexivity|left; apply app_nil_r].
+  - cbn [flat_segs flat_map flat_seg]. rewrite app_nil_r. apply ack_last_add.
+  - cbn [flat_segs flat_map flat_seg]. rewrite app_nil_r. exists []. split; [apply noack_nil|].
+    destruct (w_get_appointment _ _ _); cbn [ack_if_ok]; [right|left]; reflexivity.
+  - cbn [flat_segs flat_map flat_seg]. rewrite app_nil_r. exists []. split; [apply noack_nil|].
+    destruct (w_get_subscription_info _ _); cbn [ack_if_ok]; [right|left]; reflexivity.
+  - eexists. split; [apply noack_listeners|left; reflexivity].
+  - exists []. split; [apply noack_nil|left; reflexivity].
+Qed.
+
+Lemma noack_not_in l : noack l -> ~ In MAck l.
+Proof. intros H Hin. unfold noack in H. rewrite Forall_forall in H. exact (H _ Hin eq_refl). Qed.
+
+(* no receipt before the data is durable: in the micro-step list of every operation nothing -
+   no statement, no RPC - follows the instant the reply is returned *)
+Theorem ack_after_durable le t o sc m1 m2 :
+  op_micro le t o sc = m1 ++ MAck :: m2 -> m2 = [] /\ stmts_of m1 = op_stmts le t o sc.
+Proof.
+  intros E. destruct (ack_last le t o sc) as [l [Hl [El|El]]].
+  - exfalso. apply (noack_not_in l Hl). rewrite <- El, E. apply in_or_app. right. left. reflexivity.
+  - assert (Hm : m1 = l /\ m2 = []).
+    { rewrite El in E. clear El. revert m1 E. induction l as [|x l IH]; intros m1 E.
+      - destruct m1 as [|y m1]; cbn in E.
+        + inversion E. split; reflexivity.
+        + inversion E as [[Hy Hr]]. destruct m1; discriminate.
+      - destruct m1 as [|y m1]; cbn in E.
+        + inversion E as [[Hx Hr]]. exfalso. inversion Hl as [|? ? Hx' ?]. exact (Hx' Hx).
+        + inversion E as [[Hx Hr]]. inversion Hl as [|? ? ? Hl']. destruct (IH Hl' m1 Hr) as [A B]. subst. split; reflexivity. }
+    destruct Hm as [-> ->]. split; [reflexivity|]. unfold op_stmts. rewrite El, stmts_of_app. cbn. rewrite app_nil_r. reflexivity.
+Qed.
+
+Lemma in_firstn {A} (x : A) k l : In x (firstn k l) -> In x l.
+Proof. intros H. rewrite <- (firstn_skipn k l). apply in_or_app. left. exact H. Qed.
+
+(* ... so once the reply has been returned the crash prefix is the whole operation *)
+Lemma acked_prefix_is_all le t o sc k :
+  In MAck (firstn k (op_micro le t o sc)) -> firstn k (op_micro le t o sc) = op_micro le t o sc.
+Proof.
+  intros Hin. destruct (ack_last le t o sc) as [l [Hl [El|El]]]; rewrite El in *.
+  - exfalso. apply (noack_not_in l Hl). eapply in_firstn. exact Hin.
+  - destruct (Nat.le_gt_cases k (length l)) as [Hk|Hk].
+    + exfalso. apply (noack_not_in l Hl). rewrite firstn_app in Hin.
+      replace (k - length l)%nat with 0%nat in Hin by lia. cbn [firstn] in Hin. rewrite app_nil_r in Hin.
+      eapply in_firstn. exact Hin.
+    + apply firstn_all2. rewrite app_length. cbn [length]. lia.
+Qed.
+
+(* ------------------------------------------------------------------------------------------ *)
+(* 13. acknowledged work survives *)
+
+Lemma in_stmts_r l1 l2 s : In s (stmts_of l2) -> In s (stmts_of (l1 ++ l2)).
+Proof. intros H. rewrite stmts_of_app. apply in_or_app. right. exact H. Qed.
+Lemma in_stmts_l l1 l2 s : In s (stmts_of l1) -> In s (stmts_of (l1 ++ l2)).
+Proof. intros H. rewrite stmts_of_app. apply in_or_app. left. exact H. Qed.
+
+Lemma in_stored l a : In (app_uuid a) (map app_uuid (stored l a)).
+Proof.
+  unfold stored. destruct (find_app l (app_uuid a)) as [a0|] eqn:Ef.
+  - unfold repl. rewrite map_uuid_repl. apply find_app_Some in Ef. destruct Ef as [Hi He]. rewrite <- He. apply in_map. exact Hi.
+  - rewrite map_app. apply in_or_app. right. left. reflexivity.
+Qed.
+
+(* an accepted add_appointment: when it returns, the row is in the table, or the operation's own
+   trace deleted it (the trigger was in the cache and the penalty bounced, or the blob replacing a
+   stored version did not decrypt), or nothing was ever stored because the blob did not decrypt *)
+Lemma add_ok_durable sc t signer loc b delay sig st sg sl e t' :
+  w_add_appointment sc t signer loc b delay sig = Ok (AddOk st sg sl e) t' ->
+  exists u, signer = Some u /\
+    (In (loc, u) (map app_uuid (db_apps t')) \/
+     In (SDelApps [(loc, u)]) (stmts_of (tr_add_appointment sc t signer loc b delay sig)) \/
+     (exists dispute, ti_get (w_cache t) loc = Some dispute /\ decrypt b dispute = None /\
+                      find_app (db_apps t) (loc, u) = None)).
+Proof.
+  unfold w_add_appointment, tr_add_appointment.
+  destruct (authenticate t signer) as [u|] eqn:Ea; [|intros H; inversion H].
+  apply authenticate_Some in Ea. destruct Ea as [Hs _].
+  destruct (gk_get t u) as [ui|] eqn:Eg; [|intros H; inversion H].
+  destruct (N.leb (u_expiry ui) (gk_height t)); [intros H; inversion H|].
+  destruct (find_trk (db_trks t) (loc, u)); [intros H; inversion H|].
+  set (a := mk_app loc u b delay sig (w_height t)).
+  destruct (gk_add_update_appointment t u (loc, u) (b_len b)) as [[av|] t1|s t1] eqn:Ec; cbn [bind]; try (intros H; inversion H; fail).
+  assert (Ht1 : w_cache t1 = w_cache t /\ db_apps t1 = db_apps t).
+  { unfold gk_add_update_appointment in Ec. rewrite Eg in Ec.
+    match type of Ec with context [if ?c then _ else _] => destruct c end; inversion Ec; subst. split; reflexivity. }
+  destruct Ht1 as [Hw1 Ha1]. rewrite Hw1.
+  intros H. exists u. split; [exact Hs|].
+  destruct (ti_get (w_cache t) loc) as [dispute|] eqn:Et.
+  - destruct (w_store_triggered sc t1 a dispute) as [[] t2|s t2] eqn:E2; cbn [bind] in H; inversion H; subst; clear H.
+    unfold w_store_triggered in E2. unfold tr_store_triggered.
+    change (a_blob a) with b in *. change (app_uuid a) with (loc, u) in *.
+    destruct (decrypt b dispute) as [p|] eqn:Ed.
+    + destruct (w_store_appointment t1 a) as [[] t1'|] eqn:E3; cbn [bind] in E2; [|discriminate].
+      apply store_spec in E3. destruct E3 as [Ha3 _].
+      destruct (r_handle_breach sc t1' (loc, u) dispute p) as [s t3|] eqn:E4; cbn [bind] in E2; [|discriminate].
+      destruct (status_rejected s).
+      * right. left. apply in_stmts_r. apply in_stmts_l. apply in_stmts_r. apply in_stmts_r. left. reflexivity.
+      * inversion E2; subst. left. apply handle_breach_ua in E4. apply ua_fields in E4. destruct E4 as [_ [_ Ha4]].
+        rewrite Ha4, Ha3. exact (in_stored (db_apps t1) a).
+    + rewrite Ha1 in *. destruct (find_app (db_apps t) (loc, u)) eqn:Ef.
+      * right. left. apply in_stmts_r. apply in_stmts_l. left. reflexivity.
+      * right. right. exists dispute. repeat split; assumption.
+  - destruct (w_store_appointment t1 a) as [[] t2|s t2] eqn:E2; cbn [bind] in H; inversion H; subst; clear H.
+    apply store_spec in E2. destruct E2 as [Ha2 _]. left. rewrite Ha2. exact (in_stored (db_apps t1) a).
+Qed.
+
+(* ACKNOWLEDGED WORK SURVIVES.  If the receipt of an add_appointment was returned before the kill
+   (MAck among the first k micro steps), then after ANY statements executed later - completed or
+   partially executed operations, in any number - and a restart, the appointment's row is in the
+   tables, unless a statement of its own trace or of the later ones deleted it (explicit DELETE of
+   the row: completion, invalid / rejected drop, replacement dropped as invalid; or DELETE of its
+   owner: purge), or it was dropped as invalid at once (its trigger was in the cache and the blob
+   did not decrypt: nothing was stored). *)
+Theorem acked_survives le t signer loc b delay sig sc k later st sg sl e :
+  snd (step le t (OAdd signer loc b delay sig) sc) = OAddRes (AddOk st sg sl e) ->
+  In MAck (firstn k (op_micro le t (OAdd signer loc b delay sig) sc)) ->
+  exists u, signer = Some u /\
+    let d := db_of (restart t (execs (crash_at le k t (OAdd signer loc b delay sig) sc) later)) in
+    (has_app d (loc, u) = true \/
+     (exists s, In s (op_stmts le t (OAdd signer loc b delay sig) sc ++ later) /\ deletes (loc, u) s = true) \/
+     (exists dispute, ti_get (w_cache t) loc = Some dispute /\ decrypt b dispute = None /\
+                      find_app (db_apps t) (loc, u) = None)).
+Proof.
+  intros Hres Hack. cbn zeta. rewrite db_of_restart.
+  assert (Hn : not_abort (snd (step le t (OAdd signer loc b delay sig) sc))) by (rewrite Hres; exact I).
+  unfold crash_at. rewrite (acked_prefix_is_all _ _ _ _ _ Hack), <- (op_is_its_trace _ _ _ _ Hn).
+  cbn [step wrap] in *. unfold op_stmts, op_micro, op_segs. cbn [flat_segs flat_map flat_seg]. rewrite app_nil_r.
+  destruct (w_add_appointment sc (set_rpc_log t []) signer loc b delay sig) as [r t'|s t'] eqn:E; cbn [wrap fst snd] in *; [|discriminate].
+  inversion Hres; subst r.
+  destruct (add_ok_durable _ _ _ _ _ _ _ _ _ _ _ _ E) as [u [Hs [H|[H|H]]]]; exists u; (split; [exact Hs|]).
+  - destruct (proj1 (rows_only_deleted_explicitly later (db_of t') (loc, u))) as [H1|[s' [Hs' Hd]]].
+    + apply has_app_iff. exact H.
+    + left. exact H1.
+    + right. left. exists s'. split; [apply in_or_app; right; exact Hs'|exact Hd].
+  - right. left. exists (SDelApps [(loc, u)]). split; [apply in_or_app; left; exact H|].
+    unfold deletes. cbn [deletes_fuel mem_uuid existsb]. rewrite uuid_eqb_refl. reflexivity.
+  - right. right. exact H.
+Qed.
+
+(* the same for a tracker: a response once durable stays until an explicit delete *)
+Theorem tracker_survives d later uuid :
+  has_trk d uuid = true ->
+  has_trk (execs d later) uuid = true \/ exists s, In s later /\ deletes uuid s = true.
+Proof. exact (proj2 (rows_only_deleted_explicitly later d uuid)). Qed.
